@@ -22,7 +22,7 @@ from hplsim import core, gen, seams
 PROP = 'C07'
 
 TIERS = {
-    'quick': dict(runs=700, calls=(10, 40), wall=160, marathon=0.018),
+    'quick': dict(runs=700, calls=(10, 40), wall=300, marathon=0.018),
     'thorough': dict(runs=16000, calls=(10, 60), wall=2400, marathon=0.012),
 }
 
@@ -186,6 +186,8 @@ def model_table(sc):
     table = {}
     _WARN[0] = sc.get('warnings', 'default')
     for call in sc['calls']:
+        if call.get('unjudged'):
+            continue
         kind = PARSER_KINDS[call['parser']]
         text = sc['texts'][call['text']]['text']
         f = call.get('fault')
@@ -404,6 +406,8 @@ def gen_marathon(sim, cfg):
         t = body if family == 'condition' else '{ %s }' % body if family == 'predicate' else 'globally: no %s { %s }' % (topic, body)
         texts.append({'family': family, 'text': t, 'tag': 'marathon'})
     calls = [{'parser': pi, 'text': i, 'fault': None} for i in range(n)]
+    for c in calls[40:]:
+        c['unjudged'] = True
     calls += [{'parser': pi, 'text': sim.choose('again', min(n, 40)), 'fault': None} for _ in range(30)]
     return {'texts': texts, 'calls': calls, 'module_calls': [], 'digest_gen': sim.digest()}
 
@@ -528,8 +532,14 @@ def execute(sc, stats=None, fresh_parsers=None, trace=None):
         count('calls')
         count('text_' + tx['tag'])
         core.progress({'step': step, 'kind': kind, 'text': text})
-        (m_oc, m_events) = model(kind, text)
-        count('model_queries')
+        if call.get('unjudged'):
+            # a filler of a marathon history: parsed for its effect on the object's state and held
+            # to invariant 1; it is not compared with a parser with no past (its repetitions are)
+            m_oc, m_events = ('ok', 'ModelTimeout', None), None
+            count('filler_calls')
+        else:
+            (m_oc, m_events) = model(kind, text)
+            count('model_queries')
         fired = False
         aborted_exc = None
         oc = None
@@ -596,7 +606,9 @@ def execute(sc, stats=None, fresh_parsers=None, trace=None):
             if not result_kind_ok(kind, oc[2]):
                 return _viol('result-kind', '%s parser returned a %s' % (kind, oc[2]), step, sc, kind, text)
         # --- invariant 3: same as a parser with no past
-        if m_oc[1] == 'ModelTimeout':
+        if call.get('unjudged'):
+            pass
+        elif m_oc[1] == 'ModelTimeout':
             count('model_timeouts')
         elif oc[:2] != m_oc[:2]:
             return _viol('stateful', 'long-lived %s parser gave %s after this history, a parser with no past gives %s' % (
